@@ -6,7 +6,9 @@ import (
 	"strconv"
 	"strings"
 
+	"github.com/anoideaopen/foundation/core"
 	fpb "github.com/anoideaopen/foundation/proto"
+	"github.com/btcsuite/btcutil/base58"
 	"github.com/golang/protobuf/proto" //nolint:staticcheck
 )
 
@@ -292,6 +294,9 @@ func (aw *authWorld) buildAuth(chName string, route int, acc *Account, modes []S
 			continue
 		}
 		ac.Modes = append(ac.Modes, sigModeNames[mode])
+		if mode == SigLong && m.KeyType == fpb.KeyType_secp256k1 {
+			mode = SigValid // the recovery byte after r || s is part of that encoding
+		}
 		ac.sigSyms = append(ac.sigSyms, symSig(mode, m, aw.foreign[kt], msg))
 		if mode == SigValid {
 			ac.valid++
@@ -397,14 +402,14 @@ func (aw *authWorld) emit(c *Ctx, ac *authCase, aclMode string, argc int) {
 
 func genC01(c *Ctx) error {
 	c.ShardSize = 150
-	c.Notes["rule"] = "every request is a real signed invocation of a sender-requiring method on one of the four routes (batched submission, task, immediate NBTx, query with sender). Exhaustive part: 3 key types x signer sets of 1..3 keys x policy n in 0..size+1 (0 = the answer carries no policy, size+1 = a policy larger than the key list) x every assignment of {valid, blank, corrupted, foreign-key, other-message} to the signature positions, on rotating routes; half of the accounts have an access-control answer carrying changed-key transactions (which the chaincode records for an authenticated request); plus ACL answers {ok, status 500, empty, garbled, black, grey, key-type list short/long/absent} x key types x routes, argument-count variants, garbage signature strings, bad nonces. Non-trivial: rejected, or multi-signature."
+	c.Notes["rule"] = "every request is a real signed invocation of a sender-requiring method on one of the four routes (batched submission, task, immediate NBTx, query with sender). Exhaustive part: 3 key types x signer sets of 1..3 keys x policy n in 0..size+1 (0 = the answer carries no policy, size+1 = a policy larger than the key list) x every assignment of {valid, blank, corrupted, foreign-key, other-message, earlier request's, valid-with-extra-bytes} to the signature positions, on rotating routes; half of the accounts have an access-control answer carrying changed-key transactions (which the chaincode records for an authenticated request); plus ACL answers {ok, status 500, empty, garbled, black, grey, key-type list short/long/absent} x key types x routes, argument-count variants, garbage signature strings, bad nonces. Fifth route: the exported core.CheckSign with requests in the older format (every key must sign, ed25519 only). Non-trivial: rejected, or multi-signature."
 	aw, err := newAuthWorld()
 	if err != nil {
 		return err
 	}
 	w := aw.w
 	kts := []fpb.KeyType{fpb.KeyType_ed25519, fpb.KeyType_secp256k1, fpb.KeyType_gost}
-	modesAll := []SigMode{SigValid, SigBlank, SigCorrupt, SigForeign, SigOtherMsg, SigOldRequest}
+	modesAll := []SigMode{SigValid, SigBlank, SigCorrupt, SigForeign, SigOtherMsg, SigOldRequest, SigLong}
 	route := 0
 	maxSize := 3
 	for _, kt := range kts {
@@ -427,7 +432,7 @@ func genC01(c *Ctx) error {
 					total *= len(modesAll)
 				}
 				for x := 0; x < total; x++ {
-					if size == 3 && !c.Thorough() && c.Rng.Intn(5) != 0 {
+					if size == 3 && !c.Thorough() && c.Rng.Intn(8) != 0 {
 						continue // sampled in the quick tier
 					}
 					modes := make([]SigMode, size)
@@ -474,6 +479,42 @@ func genC01(c *Ctx) error {
 		c.Count("task_behind_failing_lookup")
 	}
 	taskTriple = false
+	// the older request format through the exported core.CheckSign (method arguments, keys, signatures; every key must sign,
+	// ed25519 only): signer sets of 1..3 keys x signature modes x access-control answers
+	for _, kt := range kts {
+		for size := 1; size <= 3; size++ {
+			members := make([]*User, size)
+			for i := range members {
+				members[i] = w.NewUser(kt)
+			}
+			acc := w.NewAccountOf(members...)
+			acc.ReqN = uint32(1 + c.Rng.Intn(size))
+			legacyModes := []SigMode{SigValid, SigBlank, SigCorrupt, SigForeign, SigOtherMsg, SigGarbage}
+			total := 1
+			for i := 0; i < size; i++ {
+				total *= len(legacyModes)
+			}
+			for x := 0; x < total; x++ {
+				if size == 3 && !c.Thorough() && c.Rng.Intn(6) != 0 {
+					continue
+				}
+				modes := make([]SigMode, size)
+				y := x
+				for i := range modes {
+					modes[i] = legacyModes[y%len(legacyModes)]
+					y /= len(legacyModes)
+				}
+				aclMode := "ok"
+				if x%7 == 3 {
+					aclMode = []string{"black", "grey", "status", "kt_none", "kt_short"}[c.Rng.Intn(5)]
+				}
+				aw.checkSignCase(c, acc, modes, aclMode)
+			}
+			for _, aclMode := range []string{"ok", "black", "grey", "status", "empty", "kt_none", "kt_short", "kt_long"} {
+				aw.checkSignCase(c, acc, nil, aclMode)
+			}
+		}
+	}
 	// unknown keys, mixed key types in one account, garbage strings, counts, nonce
 	for r := 0; r < 4; r++ {
 		stranger := NewAccount(9000+r, NewUser(9000+r, fpb.KeyType_ed25519)) // not registered with the ACL
@@ -520,3 +561,105 @@ func genC01(c *Ctx) error {
 func init() { props["C01"] = genC01 }
 
 var _ = sort.Strings
+
+// checkSignCase: one call of core.CheckSign with a request in the older format.
+func (aw *authWorld) checkSignCase(c *Ctx, acc *Account, modes []SigMode, aclMode string) {
+	w, in := aw.w, aw.w.Interner()
+	aw.tag++
+	fn, margs := "legacyMethod", []string{"t" + strconv.Itoa(aw.tag)}
+	var keys, sigs, syms, keyTerms []string
+	for _, m := range acc.Members {
+		keys = append(keys, m.Pub)
+		keyTerms = append(keyTerms, fmt.Sprintf("(%s, KI %d %d %s)", coqStr(m.Pub), m.ID+1, int(m.KeyType), coqBool(len(m.Keys.PublicKeyBytes) == 64)))
+	}
+	msgS := fn + strings.Join(append(append([]string{}, margs...), keys...), "")
+	valid, bad := 0, false
+	var modeNames []string
+	for i, m := range acc.Members {
+		mode := SigValid
+		if i < len(modes) {
+			mode = modes[i]
+		}
+		modeNames = append(modeNames, sigModeNames[mode])
+		switch mode {
+		case SigValid:
+			sigs = append(sigs, base58.Encode(m.Sign([]byte(msgS))))
+		case SigBlank:
+			sigs = append(sigs, "")
+		case SigCorrupt:
+			sg := m.Sign([]byte(msgS))
+			sg[len(sg)/2] ^= 0x04
+			sigs = append(sigs, base58.Encode(sg))
+		case SigForeign:
+			sigs = append(sigs, base58.Encode(aw.foreign[m.KeyType].Sign([]byte(msgS))))
+		case SigOtherMsg:
+			sigs = append(sigs, base58.Encode(m.Sign([]byte("x"+msgS))))
+		default:
+			sigs = append(sigs, "0OIl-not-base58")
+		}
+		if mode == SigBlank { // a blank signature is no signature here either, but it is not skipped
+			syms = append(syms, "SigJunk")
+		} else {
+			syms = append(syms, symSig(mode, m, aw.foreign[m.KeyType], msgS))
+		}
+		if mode == SigValid && m.KeyType == fpb.KeyType_ed25519 {
+			valid++
+		} else {
+			bad = true
+		}
+	}
+	aw.setACL(aclMode, acc)
+	ch := w.Peer.Channels["tt"]
+	before := stateSnapshot(ch)
+	stub := w.Peer.newStub(ch, w.Peer.NextTxID(), w.Client.Creator, nil)
+	addr, _, err := core.CheckSign(stub, fn, margs, append(append([]string{}, keys...), sigs...))
+	ac := &authCase{Route: 4, Fn: fn, Args: append(append(append([]string{}, margs...), keys...), sigs...), KeyType: acc.Members[0].KeyType.String(),
+		Modes: modeNames, ACLMode: aclMode, PolicyN: int(acc.ReqN), signers: acc.Members, account: acc, cc: "tt", ch: "tt"}
+	res := ""
+	if err == nil {
+		ac.Result = "accept"
+		res = fmt.Sprintf("OAccept %d", in.Addr(addr.String()))
+	} else {
+		ac.Message = err.Error()
+		ac.Result = "reject:" + authErr(err.Error())
+		res = "OReject " + authErr(err.Error())
+	}
+	ac.Changed = !stateEqual(before, ch) || len(stub.writes) > 0
+	// what the scripted service answers for this key list
+	aclTerm, aclOK := "AclFail", false
+	switch aclMode {
+	case "status", "empty", "garbled":
+	default:
+		var kts []string
+		switch aclMode {
+		case "kt_short":
+			for i := 1; i < len(keys); i++ {
+				kts = append(kts, "0")
+			}
+		case "kt_long":
+			for i := 0; i <= len(keys); i++ {
+				kts = append(kts, "0")
+			}
+		case "kt_none":
+		default:
+			for _, m := range acc.Members {
+				kts = append(kts, strconv.Itoa(int(m.KeyType)))
+			}
+		}
+		aclTerm = fmt.Sprintf("(AclOk %d %s %s %d %s)", in.Addr(acc.AddrString()), coqBool(acc.Black), coqBool(acc.Grey), acc.ReqN, coqList(kts))
+		aclOK = !acc.Black && !acc.Grey
+	}
+	if ac.Result == "accept" && addr.String() != acc.AddrString() {
+		aclOK = false
+	}
+	at := make([]string, len(ac.Args))
+	for i, a := range ac.Args {
+		at[i] = coqStr(a)
+	}
+	input := fmt.Sprintf("(AuthIn 2 %s %s %s %s %s %s %s)", coqStr(fn), coqList(at), coqStr("tt"), coqStr("tt"), aclTerm, coqList(keyTerms), coqList(syms))
+	term := fmt.Sprintf("mkCase %s 4 (%s) %s %d %d %s false %s", input, res, coqBool(ac.Changed), valid, len(acc.Members), coqBool(aclOK), coqBool(bad))
+	aw.setACL("ok", acc)
+	c.Emit(term, ac, true)
+	c.Count("route_check_sign")
+	c.Count("check_sign_" + strings.SplitN(ac.Result, " ", 2)[0])
+}
